@@ -56,7 +56,7 @@ def gen(rng, tier):
         if rng.random() < 0.3:
             r = with_nones(rng)
         else:
-            r = S.serial_graph(rng, depth=rng.choice([0, 1, 2]), max_nodes=rng.choice([2, 4, 6]))
+            r = S.serial_graph(rng, depth=rng.choice([0, 1, 2]), max_nodes=rng.choice([2, 4, 6]), shared=rng.random() < 0.3)
         cases.append({"kind": "graph", "recipe": V.enc_recipe(r)})
     return cases
 
